@@ -36,6 +36,27 @@ fn main() {
         }
         return;
     }
+    if args[0] == "gen-corpus" {
+        // seed corpus for the optional libFuzzer targets: valid encodings of every message variant
+        let dir = args.get(1).cloned().unwrap_or_else(|| "fuzz/corpus".to_string());
+        let w = world::World::new(&[1, 2, 1, 1], 0);
+        let data = [7u32; 8];
+        let mut t = tape::Tape::new(&data);
+        std::fs::create_dir_all(format!("{}/wire_consensus", dir)).unwrap();
+        std::fs::create_dir_all(format!("{}/wire_mempool", dir)).unwrap();
+        std::fs::create_dir_all(format!("{}/keys", dir)).unwrap();
+        for (i, m) in props::c15::valid_consensus_messages(&w, &mut t).iter().enumerate() {
+            std::fs::write(format!("{}/wire_consensus/valid-{}", dir, i), bincode::serialize(m).unwrap()).unwrap();
+        }
+        let batch = mempool::MempoolMessage::Batch(vec![vec![1, 2, 3], vec![], vec![9; 40]]);
+        std::fs::write(format!("{}/wire_mempool/batch", dir), bincode::serialize(&batch).unwrap()).unwrap();
+        let req = mempool::MempoolMessage::BatchRequest(vec![world::sha512_32(b"x")], w.pk(0));
+        std::fs::write(format!("{}/wire_mempool/request", dir), bincode::serialize(&req).unwrap()).unwrap();
+        std::fs::write(format!("{}/keys/public", dir), w.pk(0).encode_base64()).unwrap();
+        std::fs::write(format!("{}/keys/secret", dir), w.keys[0].1.encode_base64()).unwrap();
+        println!("corpus written to {}", dir);
+        return;
+    }
     if args[0] == "merge" {
         if args.len() != 4 {
             usage();
